@@ -325,6 +325,23 @@ class Interp:
                 return Opaque(f"{base.label}.{e.attr}")
             raise Unsupported(e, "(attribute of a concrete value)")
         if isinstance(e, ast.JoinedStr):
+            if self.globals.get("__concrete_fstrings__"):
+                parts: List[str] = []
+                for v in e.values:
+                    if isinstance(v, ast.Constant) and isinstance(v.value, str):
+                        parts.append(v.value)
+                    elif isinstance(v, ast.FormattedValue) and v.conversion == -1 and v.format_spec is None:
+                        x = self.ev(v.value)
+                        if isinstance(x, (str, int)) and not isinstance(x, bool):
+                            parts.append(str(x))
+                        else:
+                            parts = None  # type: ignore[assignment]
+                            break
+                    else:
+                        parts = None  # type: ignore[assignment]
+                        break
+                if parts is not None:
+                    return "".join(parts)
             const = "".join(v.value if isinstance(v, ast.Constant) and isinstance(v.value, str) else "{}" for v in e.values)
             return Opaque("str:" + const)
         if isinstance(e, ast.Tuple):
@@ -475,6 +492,12 @@ class Interp:
             return Opaque("binop")
         if isinstance(op, ast.Add) and type(a) is type(b) and isinstance(a, (int, list, tuple, str)):
             return a + b
+        if isinstance(op, ast.Mult) and isinstance(a, str) and isinstance(b, int):
+            return a * b
+        if isinstance(op, ast.Mult) and isinstance(a, int) and isinstance(b, int):
+            return a * b
+        if isinstance(op, ast.Mod) and isinstance(a, str):
+            return Opaque("str")
         if isinstance(op, ast.Sub) and isinstance(a, int) and isinstance(b, int):
             return a - b
         if isinstance(op, ast.Sub) and isinstance(a, (set, frozenset)) and isinstance(b, (set, frozenset)):
@@ -562,6 +585,14 @@ class Interp:
                     ctor = target.get("__call__", e)
                     return ctor(*args, **kwargs)
                 return target(*args, **kwargs)
+            if nm == "hasattr" and len(e.args) == 2 and nm not in self.env:
+                o = self.ev(e.args[0])
+                a = self.ev(e.args[1])
+                if isinstance(o, Obj) and isinstance(a, str):
+                    return a in o._attrs
+                if o is None:
+                    return False
+                raise Unsupported(e, "(hasattr on a non-model value)")
             if nm == "defaultdict" and len(e.args) == 1 and isinstance(e.args[0], ast.Name) and e.args[0].id in ("list", "set", "dict"):
                 import collections as _c
 
@@ -622,11 +653,16 @@ class Interp:
             if isinstance(recv, dict) and meth in ("items", "values", "keys", "get"):
                 r = getattr(recv, meth)(*args)
                 return list(r) if meth != "get" else r
-            if isinstance(recv, str) and meth in ("split", "strip", "startswith", "endswith", "lower", "upper", "replace", "isdigit", "isdecimal", "lstrip", "rstrip") and not any(isinstance(a, Opaque) for a in args):
+            if isinstance(recv, str) and meth in ("split", "strip", "startswith", "endswith", "lower", "upper", "replace", "isdigit", "isdecimal", "lstrip", "rstrip", "splitlines", "index", "find", "count") and not any(isinstance(a, Opaque) for a in args):
                 return getattr(recv, meth)(*args)
             if isinstance(recv, str) and meth == "join" and len(args) == 1 and isinstance(args[0], (list, tuple)) and all(isinstance(x, str) for x in args[0]):
                 return recv.join(args[0])
             if isinstance(recv, str) and meth == "format":
+                if self.globals.get("__concrete_fstrings__") and args and all(isinstance(a, (str, int)) and not isinstance(a, bool) for a in args) and not e.keywords:
+                    try:
+                        return recv.format(*args)
+                    except (IndexError, KeyError, ValueError):
+                        raise PyRaise("ValueError", None)
                 return Opaque("str:" + recv)
             if isinstance(recv, str) and meth == "join":
                 return Opaque("str")
